@@ -111,7 +111,18 @@ def relative_rois(prog: Program) -> List[Instance]:
     out: List[Instance] = []
     f = prog.func("overlap:_relative_rois")
     pp = f.param_names()
-    src_p, dst_p, tr_p = pp[0], pp[1], pp[2]
+    # parameters by what they are (annotation / conventional name), not by position: the signature of a private helper may be re-ordered
+    def _by(names, ann_words):
+        for a in f.params():
+            if a.arg in names:
+                return a.arg
+        for a in f.params():
+            if a.annotation is not None and any(w in ast.unparse(a.annotation) for w in ann_words):
+                return a.arg
+        return None
+    src_p, dst_p, tr_p = _by(("src", "src_gbox", "source"), ()), _by(("dst", "dst_gbox", "destination"), ()), _by(("tr", "transform", "pt_tr"), ("PointTransform",))
+    if not (src_p and dst_p and tr_p):
+        return [Instance("R-GUARDSEQ", f"{f.qual}#parameters", UNDET, f"source / destination / point-transform parameters not identified among {pp}", f.where())]
     calls = [n for n in walk_own(f.node) if isinstance(n, ast.Call) and call_name(n) == "roi_from_points"]
     if len(calls) != 2:
         return [Instance("R-GUARDSEQ", f"{f.qual}#two-envelopes", UNDET, f"expected two roi_from_points calls, found {len(calls)}", f.where())]
@@ -135,6 +146,8 @@ def relative_rois(prog: Program) -> List[Instance]:
     ok = b0 is True and b1 is False and dst_p in d0
     out.append(Instance("R-GUARDSEQ", f"{f.qual}#directions", OK if ok else BAD, "destination boundary goes through tr.back into the source; the source ROI goes through tr into the destination" if ok else "boundary points are mapped in the wrong direction", f.where()))
     for kw in ("padding", "align"):
+        if kw not in pp:
+            continue  # the option does not arrive as a parameter of its own (bundled into an options object)
         a = None
         cps = ["xy", "shape", "padding", "align"]
         if kw in cps and cps.index(kw) < len(c0.args):
@@ -477,7 +490,10 @@ def block_assembler(prog: Program) -> List[Instance]:
         dst_a, src_a = cp[0].args[0], cp[0].args[1]
         # destination subscript derives from the window part, source subscript from the block part
         ok = isinstance(dst_a, ast.Subscript) and isinstance(src_a, ast.Subscript) and win_part in org.deps_names(dst_a.slice) and blk_part in org.deps_names(src_a.slice) and "block" in short(src_a.value)
-    out.append(Instance("R-GUARDSEQ", f"{e.qual}#paste-parts", OK if ok else BAD,
+    if len(cp) != 1:
+        out.append(Instance("R-GUARDSEQ", f"{e.qual}#paste-parts", UNDET, f"expected one np.copyto(dst[..], block[..]) call in extract, found {len(cp)} (paste goes through another callable)", e.where()))
+    else:
+      out.append(Instance("R-GUARDSEQ", f"{e.qual}#paste-parts", OK if ok else BAD,
                         "the block is read through its own part of the intersection and written through the window's part" if ok else "source/destination parts of the 3-way intersection are swapped or not used for the paste", e.where()))
     # the window array is allocated with the shape of the request, so along the non-spatial axes it
     # must be indexed with full slices, not with the request's own (absolute) offsets
@@ -569,13 +585,20 @@ def from_bbox_origin(prog: Program) -> List[Instance]:
                 continue
             k += 1
             bad = []
+            unread: List[str] = []
             for a in n.args:
                 if not isinstance(a, ast.Name):
                     bad.append(short(a))
                     continue
                 for _, dst, v, kind in rd.reaching(st, a.id):
+                    if isinstance(v, (ast.GeneratorExp, ast.ListComp)) or (isinstance(v, ast.Call) and call_name(v) in ("zip", "map", "tuple", "list")):
+                        unread.append(f"{a.id} <- {short(v, 40)}")  # origins computed by a per-axis pipeline: not followed
+                        continue
                     if not (isinstance(v, ast.Call) and call_name(v) == "snap_grid" and kind.startswith("unpack[0/")):
                         bad.append(f"{a.id} <- {short(v) if v is not None else kind}")
+            if unread and not bad:
+                out.append(Instance("R-SIGNROLE", f"{f.qual}#origin-from-snap_grid:{k}", UNDET, f"origin reaches Affine.translation through a per-axis generator / zip pipeline ({unread[0]})", f.where(n)))
+                continue
             out.append(Instance("R-SIGNROLE", f"{f.qual}#origin-from-snap_grid:{k}", BAD if bad else OK,
                                 f"grid origin in the resolution-driven branch does not come from snap_grid on every path ({bad[:2]}): with a positive y or negative x resolution the grid lies beside the region" if bad
                                 else "origin of the resolution-driven grid is snap_grid's sign-aware origin on every path", f.where(n)))
@@ -916,7 +939,21 @@ def gridspec_polygon_filter(prog: Program) -> List[Instance]:
         st = enclosing_stmt(y)
         yielded = names_in(y.value) if y.value is not None else set()
         ok = False
+        local_pred_notouch = False
         for e, p in conds_at(cond, st):
+            # a local predicate `overlaps(tile.extent)`: read its single return expression
+            if p and isinstance(e, ast.Call) and isinstance(e.func, ast.Name) and e.func.id in f.nested and e.args:
+                nf_ = f.nested[e.func.id]
+                rets_ = [r.value for r in walk_own(nf_.node) if isinstance(r, ast.Return) and r.value is not None]
+                if len(rets_) == 1:
+                    rv_ = rets_[0]
+                    inter = any(isinstance(x, ast.Call) and call_name(x) == "intersects" for x in ast.walk(rv_)) or any(isinstance(u, ast.UnaryOp) and isinstance(u.op, ast.Not) and isinstance(u.operand, ast.Call) and call_name(u.operand) == "disjoint" for u in ast.walk(rv_))
+                    conj = not any(isinstance(b_, ast.BoolOp) and isinstance(b_.op, ast.Or) for b_ in ast.walk(rv_))
+                    ext_ = [x for a_ in e.args for x in ast.walk(a_) if isinstance(x, ast.Attribute) and x.attr == "extent"]
+                    if inter and conj and ext_ and names_in(ext_[0].value) & yielded:
+                        ok = True
+                    if conj and any(isinstance(u, ast.UnaryOp) and isinstance(u.op, ast.Not) and isinstance(u.operand, ast.Call) and call_name(u.operand) == "touches" for u in ast.walk(rv_)):
+                        local_pred_notouch = True
             if isinstance(e, ast.Call) and call_name(e) in ("disjoint", "intersects") and ((call_name(e) == "disjoint" and not p) or (call_name(e) == "intersects" and p)):
                 ext = [x for a in e.args for x in ast.walk(a) if isinstance(x, ast.Attribute) and x.attr == "extent"]
                 # the extent may sit in a local first: extent = tile_geobox.extent
@@ -931,7 +968,7 @@ def gridspec_polygon_filter(prog: Program) -> List[Instance]:
         gi_ = prog.maybe_func("geom:intersects")
         gi_excludes = gi_ is not None and any(isinstance(r, ast.Return) and any(isinstance(u, ast.UnaryOp) and isinstance(u.op, ast.Not) and isinstance(u.operand, ast.Call) and call_name(u.operand) == "touches" for u in ast.walk(r)) for r in walk_own(gi_.node))
         via_fn = gi_excludes and any(p and isinstance(e, ast.Call) and call_name(e) == "intersects" and len(e.args) == 2 for e, p in conds_at(cond, st))
-        notouch = via_fn or any(isinstance(e, ast.Call) and call_name(e) == "touches" and not p for e, p in conds_at(cond, st)) or any(isinstance(e, ast.Call) and call_name(e) in ("overlaps", "relate_pattern") and p for e, p in conds_at(cond, st))
+        notouch = via_fn or local_pred_notouch or any(isinstance(e, ast.Call) and call_name(e) == "touches" and not p for e, p in conds_at(cond, st)) or any(isinstance(e, ast.Call) and call_name(e) in ("overlaps", "relate_pattern") and p for e, p in conds_at(cond, st))
         out.append(Instance("R-GUARDSEQ", f"{f.qual}#yield-excludes-touch:{k}", OK if notouch else BAD,
                             "edge/corner-only contact is excluded (not touches), like the bounding-box query does with its tolerance" if notouch else
                             "a tile that only touches the query along an edge or at a corner passes the filter (`not disjoint` / `intersects` are true for boundary contact): the statement excludes edge contacts", f.where(y)))
